@@ -24,3 +24,5 @@ def run(F, rep):
     # tables decide that operation for every k-mer type (odd K, self-complementary arms) — a wrong representative is a k-mer that is
     # not in the table
     rep.run(common.run_kmer_lemmas, F, rep, {"canon"})
+    # node k-mers are observed through Vmer::get_kmer / iter_kmers on views of the packed store (any k-mer type, any offset)
+    rep.run(common.run_store_kmer_lemmas, F, rep, "C01.6")
